@@ -8,7 +8,8 @@ class whose copy_from cannot rebuild it, H7 default formatter instance exists.
 import ast
 import importlib
 
-from ..astx import dotted, call_name, walk_no_nested, parent, self_attr, func_params, terminates, resolve_local, ancestors
+from ..astx import dotted, call_name, walk_no_nested, parent, self_attr, func_params, terminates, resolve_local, ancestors, \
+    flatten_conditions, dominating_conditions
 from ..callgraph import CallGraph, diff_entries
 from ..core import norm
 from .. import nodeshape
@@ -663,6 +664,76 @@ def h9b(ctx):
     ctx.floor("H9b", n, 30, "colour constants handed to printers")
 
 
+def h12(ctx):
+    m = ctx.model
+    ctx.rule("H12", "the two files need not be of one kind: every edits(self, node) of a node class tests the kind of `node` before it "
+                    "builds an edit that reads kind-specific members of it (siblings all do: `isinstance(node, ListNode)` ... else "
+                    "Replace); a mapping's test must imply that the other node's members are key/value pairs; and the key pre-match "
+                    "of MultiSetEdit reads `.key` of a member only under an isinstance test of that same member")
+    TREE = "graphtage.tree.TreeNode"
+    n = 0
+    for q in sorted(set(m.subclasses(TREE)) | {TREE}):
+        fn = m.method(q, "edits")
+        if fn is None or fn.cls != q or m.is_abstract(q) and not fn.node.body:
+            continue
+        ps = func_params(fn.node)
+        if len(ps) < 2:
+            continue
+        other = ps[1]
+        body = [s_ for s_ in fn.node.body if not (isinstance(s_, ast.Expr) and isinstance(s_.value, ast.Constant))]
+        if len(body) == 1 and isinstance(body[0], (ast.Raise, ast.Pass)):
+            continue
+        short = q.rsplit(".", 1)[-1]
+        # kind-specific constructions: calls passing `other` to a project class / method other than Replace / Match
+        specific = []
+        for c in walk_no_nested(fn.node):
+            if isinstance(c, ast.Call) and any(dotted(a) == other for a in list(c.args) + [k.value for k in c.keywords]):
+                nm = (call_name(c) or "").rsplit(".", 1)[-1]
+                if nm in ("Replace", "Match", "isinstance", "frozenset", "len", "type", "str", "levenshtein_distance"):
+                    continue
+                specific.append(c)
+        for c in specific:
+            n += 1
+            facts = flatten_conditions(dominating_conditions(c))
+            kinds = [t for t, pol in facts if pol and isinstance(t, ast.Call) and call_name(t) == "isinstance" and dotted(t.args[0]) == other]
+            kinds += [t.operand for t, pol in facts if not pol and isinstance(t, ast.UnaryOp) and isinstance(t.operand, ast.Call)
+                      and call_name(t.operand) == "isinstance" and dotted(t.operand.args[0]) == other]
+            neg = [t for t, pol in facts if not pol and isinstance(t, ast.Call) and call_name(t) == "isinstance" and dotted(t.args[0]) == other]
+            if not kinds and not neg:
+                ctx.violation("H12", fn.file, f"{short}.edits", c, f"{short}.edits kind test",
+                              f"`{norm(c, 60)}` is built from `{other}` without any isinstance test of it: comparing a {short} with a node "
+                              f"of another kind (an XML file against a JSON file) reads members the other node does not have and "
+                              f"raises AttributeError, where every sibling class answers with a Replace")
+                continue
+            # a mapping that hands the other node to a key-aware edit must know that the other node holds key/value pairs
+            if m.is_subclass(q, m.need_class("MappingNode")) and kinds:
+                kq = m.resolve_class(fn.module, kinds[0].args[1])
+                if kq and not m.is_subclass(kq, m.need_class("MappingNode")):
+                    ctx.violation("H12", fn.file, f"{short}.edits", kinds[0], f"{short}.edits kind test",
+                                  f"`{norm(kinds[0], 50)}` admits any {kq.rsplit('.', 1)[-1]}: a plain set (a pickled set against a pickled "
+                                  f"dict) is then diffed as a mapping, and the key handling reads `.key` of members that are not key/value "
+                                  f"pairs (AttributeError) or calls KeyValuePairNode.edits with one (RuntimeError)")
+                    continue
+            ctx.proved("H12", fn.file, f"{short}.edits", c, f"{short}.edits kind test", f"built only under `{norm((kinds or neg)[0], 50)}`")
+    # key reads in MultiSetEdit
+    mq = m.need_class("MultiSetEdit")
+    init = m.method(mq, "__init__")
+    for a in walk_no_nested(init.node):
+        if isinstance(a, ast.Attribute) and a.attr == "key" and isinstance(a.value, ast.Name) and isinstance(a.ctx, ast.Load):
+            n += 1
+            v = a.value.id
+            facts = flatten_conditions(dominating_conditions(a))
+            ok = any(pol and isinstance(t, ast.Call) and call_name(t) == "isinstance" and dotted(t.args[0]) == v
+                     and "KeyValuePairNode" in ast.unparse(t.args[1]) for t, pol in facts)
+            if ok:
+                ctx.proved("H12", init.file, "MultiSetEdit.__init__", a, f"{v}.key guarded", f"`{v}.key` is read only when `{v}` is a key/value pair")
+            else:
+                ctx.violation("H12", init.file, "MultiSetEdit.__init__", a, f"{v}.key guarded",
+                              f"`{v}.key` is read although no isinstance test of `{v}` dominates it (the inner loop re-tests the outer "
+                              f"variable): a member of the other collection that is not a key/value pair raises AttributeError")
+    ctx.floor("H12", n, 8, "kind-specific constructions and key reads")
+
+
 def h6_copy(ctx, reach):
     m = ctx.model
     ctx.rule("H6", "copy() is reachable while printing (formatter fallbacks copy children); every concrete node class "
@@ -1079,6 +1150,7 @@ def run(ctx):
     h8_overrides(ctx)
     h9_palettes(ctx)
     h9b(ctx)
+    h12(ctx)
     h10_release(ctx, cg)
     h11_leaf_domains(ctx, roots)
     h6_copy(ctx, reach)
